@@ -10,7 +10,8 @@ FIXES = [('90efd8b','C03','P1 layout bytes alias pooled buffer'), ('0c85171','C1
  ('371451a','C01','P6'), ('4752105','C16','P7 unbound handle / stale bindings after Destroy'), ('1e10e30','C08','P8 GetFileLine W<3 panics'), ('dde5971','C07','P9 bare NaN/Inf in JSON'),
  ('41037af','C11','P10 FastCaller skip off by one'), ('b81be82','C14','P11 retention prefix-only match'), ('8c7546d','C17','P12a strconv.Unquote rejects \\/ and raw newlines'),
  ('f57f549','C17','P12b unbounded syntax-error accumulation'), ('d14f145','C15','P13 numeric attributes not range-checked'), ('62ce6b7','C01','P15 non-separating rolling logger ignores upper bound above MAX'),
- ('0123ed9','C13','P14a writer overtaken by two rotations loses its line'), ('6746979','C05','P14b rotation overtaken by the next one leaks a descriptor')]
+ ('0123ed9','C13','P14a writer overtaken by two rotations loses its line'), ('6746979','C05','P14b rotation overtaken by the next one leaks a descriptor'),
+ ('ac8c349','C14','P16 retention cut-off wraps for maxAge above 2562047 h')]
 RELATED = {'C07': ['C03', 'C08'], 'C08': ['C07', 'C03'], 'C13': ['C19', 'C05', 'C20'], 'C05': ['C19', 'C13', 'C04'], 'C06': ['C03', 'C04', 'C12'], 'C04': ['C06', 'C05'], 'C03': ['C07', 'C20'], 'C10': ['C16', 'C01'], 'C12': ['C06', 'C04'], 'C19': ['C13', 'C05'], 'C20': ['C13', 'C14', 'C03'], 'C14': ['C20'], 'C01': ['C15', 'C02'], 'C02': ['C16', 'C01'], 'C15': ['C17', 'C01'], 'C16': ['C10', 'C02'], 'C17': ['C15'], 'C09': ['C07', 'C08'], 'C11': ['C10'], 'C18': ['C02']}
 
 def run(src, pid):
